@@ -46,9 +46,13 @@ def _state_accesses(fn):
 def run(ctx):
     repo = ctx.repo
     cg = CallGraph(repo, prefixes=('beartype.claw',))
+    lock_discipline(ctx, repo, cg, 'C06.R1')
+    _rest(ctx, repo, cg)
 
+
+def lock_discipline(ctx, repo, cg, RULE):
     # ---- R1 ----------------------------------------------------------------------
-    ctx.rule('C06.R1', 'every read or write of claw_state.packages_trie_*, claw_state.beartype_path_hook and '
+    ctx.rule(RULE, 'every read or write of claw_state.packages_trie_*, claw_state.beartype_path_hook and '
              'sys.path_hooks is lexically inside `with claw_lock` or in a function all of whose (resolved) call '
              'sites are, transitively; functions without any caller in the package count as unlocked entry points')
     memo = {}
@@ -89,10 +93,13 @@ def run(ctx):
                 ok, why = True, ''
             else:
                 ok, why = locked_fn(q)
-            ctx.ob('C06.R1', f'{q.replace("beartype.claw.", "")}:{norm(a)}:{"store" if isinstance(getattr(a, "ctx", None), ast.Store) else "access"}',
+            ctx.ob(RULE, f'{q.replace("beartype.claw.", "")}:{norm(a)}:{"store" if isinstance(getattr(a, "ctx", None), ast.Store) else "access"}',
                    m.where(a), f'access of {norm(a)} is under {LOCK}', ok, why)
-    ctx.floor('C06.R1', n, 15, 'accesses of the shared hook state')
+    ctx.floor(RULE, n, 15, 'accesses of the shared hook state')
 
+
+
+def _rest(ctx, repo, cg):
     # ---- R2 ----------------------------------------------------------------------
     ctx.rule('C06.R2', 'get_package_conf_or_none: the whitelist walk is inside `if not is_package_blacklisted(…)`; the '
              'fold keeps the last non-None configuration (`acc = node.conf or acc` / `if node.conf is not None: '
